@@ -221,7 +221,7 @@ func (env *SpecEnv) Eval(e *Expr) (SpecVal, error) {
 		if err != nil {
 			return SpecVal{}, err
 		}
-		sl, ok := x.Ty.Underlying().(*types.Slice)
+		sl, ok := U(x.Ty).(*types.Slice)
 		if x.Ty == nil || !ok {
 			return SpecVal{}, fmt.Errorf("slice expression on non-slice %s", e.Args[0].String())
 		}
@@ -274,7 +274,7 @@ func (env *SpecEnv) object(obj types.Object) (SpecVal, error) {
 	case *types.Const:
 		if o.Val().Kind() == constant.Int {
 			bi, _ := new(big.Int).SetString(o.Val().ExactString(), 10)
-			if _, ok := o.Type().Underlying().(*types.Basic); ok && o.Type().Underlying().(*types.Basic).Info()&types.IsUntyped != 0 {
+			if _, ok := U(o.Type()).(*types.Basic); ok && U(o.Type()).(*types.Basic).Info()&types.IsUntyped != 0 {
 				return SpecVal{T: IntLitBig(bi), Lit: bi}, nil
 			}
 			t, err := vc.constTerm(o.Val(), o.Type())
@@ -537,7 +537,7 @@ func (env *SpecEnv) equal(a, b SpecVal) (Term, error) {
 }
 
 func derefNamed(t types.Type) types.Type {
-	if p, ok := t.Underlying().(*types.Pointer); ok {
+	if p, ok := U(t).(*types.Pointer); ok {
 		return p.Elem()
 	}
 	return nil
@@ -604,10 +604,10 @@ func (env *SpecEnv) field(e *Expr) (SpecVal, error) {
 }
 
 func lookupFieldAnyPkg(t types.Type, name string) (types.Object, []int) {
-	if p, ok := t.Underlying().(*types.Pointer); ok {
+	if p, ok := U(t).(*types.Pointer); ok {
 		t = p.Elem()
 	}
-	st, ok := t.Underlying().(*types.Struct)
+	st, ok := U(t).(*types.Struct)
 	if !ok {
 		return nil, nil
 	}
@@ -629,7 +629,7 @@ func lookupFieldAnyPkg(t types.Type, name string) (types.Object, []int) {
 func (env *SpecEnv) fieldByIndex(x SpecVal, i int) (SpecVal, error) {
 	vc := env.vc
 	if el := derefNamed(x.Ty); el != nil {
-		st, ok := el.Underlying().(*types.Struct)
+		st, ok := U(el).(*types.Struct)
 		if !ok {
 			return SpecVal{}, fmt.Errorf("field of non-struct pointer %s", x.Ty)
 		}
@@ -640,7 +640,7 @@ func (env *SpecEnv) fieldByIndex(x SpecVal, i int) (SpecVal, error) {
 		}
 		return SpecVal{T: v, Ty: st.Field(i).Type()}, nil
 	}
-	if st, ok := x.Ty.Underlying().(*types.Struct); ok {
+	if st, ok := U(x.Ty).(*types.Struct); ok {
 		srt, err := vc.tt.SortOf(x.Ty)
 		if err != nil {
 			return SpecVal{}, err
@@ -703,7 +703,7 @@ func (env *SpecEnv) addrOf(e *Expr) (Term, types.Type, error) {
 			}
 			base, el = b, t
 		}
-		st, ok := el.Underlying().(*types.Struct)
+		st, ok := U(el).(*types.Struct)
 		if !ok {
 			return Term{}, nil, fmt.Errorf("field %s of non-struct", e.Op)
 		}
@@ -721,12 +721,12 @@ func (env *SpecEnv) addrOf(e *Expr) (Term, types.Type, error) {
 		idx := vc.toIndex(i.T, i.Ty)
 		x, err := env.Eval(e.Args[0])
 		if err == nil && x.Ty != nil {
-			if sl, ok := x.Ty.Underlying().(*types.Slice); ok {
+			if sl, ok := U(x.Ty).(*types.Slice); ok {
 				k := vc.tt.Slots(sl.Elem())
 				return ElemAddr(SBase(x.T), idx, k), sl.Elem(), nil
 			}
 			if el := derefNamed(x.Ty); el != nil {
-				if arr, ok := el.Underlying().(*types.Array); ok {
+				if arr, ok := U(el).(*types.Array); ok {
 					k := vc.tt.Slots(arr.Elem())
 					return ElemAddr(RefAdd(x.T, IntLit(1)), idx, k), arr.Elem(), nil
 				}
@@ -736,7 +736,7 @@ func (env *SpecEnv) addrOf(e *Expr) (Term, types.Type, error) {
 		if err2 != nil {
 			return Term{}, nil, err2
 		}
-		if arr, ok := t.Underlying().(*types.Array); ok {
+		if arr, ok := U(t).(*types.Array); ok {
 			k := vc.tt.Slots(arr.Elem())
 			return ElemAddr(RefAdd(b, IntLit(1)), idx, k), arr.Elem(), nil
 		}
@@ -786,7 +786,7 @@ func (env *SpecEnv) index(e *Expr) (SpecVal, error) {
 		}
 		return SpecVal{}, fmt.Errorf("index of untyped value")
 	}
-	switch u := x.Ty.Underlying().(type) {
+	switch u := U(x.Ty).(type) {
 	case *types.Slice:
 		k := vc.tt.Slots(u.Elem())
 		addr := ElemAddr(SBase(x.T), vc.toIndex(i.T, i.Ty), k)
@@ -798,7 +798,7 @@ func (env *SpecEnv) index(e *Expr) (SpecVal, error) {
 	case *types.Array:
 		return SpecVal{T: Select(x.T, vc.toIndex(i.T, i.Ty)), Ty: u.Elem()}, nil
 	case *types.Pointer:
-		if arr, ok := u.Elem().Underlying().(*types.Array); ok {
+		if arr, ok := U(u.Elem()).(*types.Array); ok {
 			k := vc.tt.Slots(arr.Elem())
 			addr := ElemAddr(RefAdd(x.T, IntLit(1)), vc.toIndex(i.T, i.Ty), k)
 			v, err := vc.loadRaw(env.cur, addr, arr.Elem())
@@ -877,7 +877,7 @@ func (env *SpecEnv) call(e *Expr) (SpecVal, error) {
 		}
 		if recv.Ty != nil {
 			if tp, ok := types.Unalias(recv.Ty).(*types.TypeParam); ok {
-				if it, ok := tp.Constraint().Underlying().(*types.Interface); ok {
+				if it, ok := U(tp.Constraint()).(*types.Interface); ok {
 					for i := 0; i < it.NumMethods(); i++ {
 						m := it.Method(i)
 						if m.Name() != fnE.Op {
@@ -969,11 +969,11 @@ func (env *SpecEnv) call(e *Expr) (SpecVal, error) {
 		if err != nil || len(as) != 2 || as[0].T.Sort != SFunc {
 			return SpecVal{}, fmt.Errorf("%s(iterator, j): %v", name, err)
 		}
-		sig, ok := as[0].Ty.Underlying().(*types.Signature)
+		sig, ok := U(as[0].Ty).(*types.Signature)
 		if !ok || sig.Params().Len() != 1 {
 			return SpecVal{}, fmt.Errorf("%s: not an iterator", name)
 		}
-		ysig, ok := sig.Params().At(0).Type().Underlying().(*types.Signature)
+		ysig, ok := U(sig.Params().At(0).Type()).(*types.Signature)
 		idx := 0
 		if name == "yielded2" {
 			idx = 1
@@ -1012,7 +1012,7 @@ func (env *SpecEnv) call(e *Expr) (SpecVal, error) {
 		if name == "istype" {
 			return SpecVal{T: Eq(ITag(x.T), IntLit(int64(vc.tt.TID(ty))))}, nil
 		}
-		if _, isPtr := ty.Underlying().(*types.Pointer); isPtr {
+		if _, isPtr := U(ty).(*types.Pointer); isPtr {
 			return SpecVal{T: IRefOf(x.T), Ty: ty}, nil
 		}
 		v, err := vc.loadRaw(env.cur, IRefOf(x.T), ty)
@@ -1036,7 +1036,7 @@ func (env *SpecEnv) call(e *Expr) (SpecVal, error) {
 			pv, err := env.ident(pn)
 			var rty types.Type
 			if err == nil && pv.Ty != nil {
-				if sig, ok := pv.Ty.Underlying().(*types.Signature); ok && sig.Results().Len() == 1 {
+				if sig, ok := U(pv.Ty).(*types.Signature); ok && sig.Results().Len() == 1 {
 					rty = sig.Results().At(0).Type()
 				}
 			}
@@ -1070,7 +1070,7 @@ func (env *SpecEnv) call(e *Expr) (SpecVal, error) {
 		if err != nil || len(as) != 1 || as[0].T.Sort != SRef {
 			return SpecVal{}, fmt.Errorf("received(ch): %v", err)
 		}
-		cht, ok := as[0].Ty.Underlying().(*types.Chan)
+		cht, ok := U(as[0].Ty).(*types.Chan)
 		if !ok {
 			return SpecVal{}, fmt.Errorf("received(): not a channel")
 		}
@@ -1097,7 +1097,7 @@ func (env *SpecEnv) call(e *Expr) (SpecVal, error) {
 			return SpecVal{}, fmt.Errorf("len of untyped value")
 		}
 		var r Term
-		switch u := x.Ty.Underlying().(type) {
+		switch u := U(x.Ty).(type) {
 		case *types.Slice:
 			if name == "len" {
 				r = SLen(x.T)
@@ -1111,7 +1111,7 @@ func (env *SpecEnv) call(e *Expr) (SpecVal, error) {
 		case *types.Map:
 			r = Ite(Eq(Rid(x.T), IntLit(0)), IntLit(0), Select(vc.mapHeap(env.cur, "len", "", ""), Rid(x.T)))
 		case *types.Pointer:
-			if arr, ok := u.Elem().Underlying().(*types.Array); ok {
+			if arr, ok := U(u.Elem()).(*types.Array); ok {
 				r = IntLit(arr.Len())
 			}
 		}
@@ -1153,7 +1153,7 @@ func (env *SpecEnv) call(e *Expr) (SpecVal, error) {
 		if err != nil || len(as) != 2 {
 			return SpecVal{}, fmt.Errorf("in(m,k): %v", err)
 		}
-		m, ok := as[0].Ty.Underlying().(*types.Map)
+		m, ok := U(as[0].Ty).(*types.Map)
 		if !ok {
 			return SpecVal{}, fmt.Errorf("in: first argument must be a map")
 		}
